@@ -7,6 +7,7 @@
 //
 //   err        the call is not performed and fails (EIO; ENOSPC for write/pwrite; EACCES for
 //              open*/unlink*/fopen).  close() still releases the descriptor, as Linux does.
+//              Not applicable to sigaction(), which cannot fail when given valid arguments.
 //   short      read/write/pwrite transfer only half of the requested count (no-op if count < 2)
 //   eintr      read/write/pwrite/poll fail with EINTR, nothing transferred (no-op elsewhere)
 //   eagain     read/write/pwrite fail with EAGAIN, nothing transferred (no-op elsewhere)
@@ -427,9 +428,11 @@ int sigaction(int sig, const struct sigaction *act, struct sigaction *old)
 	REAL(int, sigaction, int, const struct sigaction *, struct sigaction *);
 	if (!active || inside)
 		return real(sig, act, old);
+	// sigaction() with valid arguments cannot fail, so "err" is not applicable here: the call is a fault
+	// position for signals and process death only.
 	long ord; int kind = SIMPLE_KIND(begin("sigaction", -1, NULL, &ord));
-	int r;
-	if (kind == K_ERR) { errno = EIO; r = -1; } else r = real(sig, act, old);
+	if (kind == K_ERR) kind = K_NOOP;
+	int r = real(sig, act, old);
 	finish(ord, "sigaction", -1, (long)sig * 2 + (act != NULL), r, kind, NULL);
 	return r;
 }
